@@ -270,6 +270,41 @@ fn method_estimators(c: &Case) -> Result<(), Fail> {
             judge("SuperMinHash2::get_jaccard_index_estimate", &call(|| sa.get_jaccard_index_estimate(&vb).ok()), &call(|| sb.get_jaccard_index_estimate(&va).ok()), &call(|| sa.get_jaccard_index_estimate(&va).ok()), e, m)?;
         }
     }
+    // the method estimators on sketchers in other states: new (nothing sketched yet), reinitialised after use, and in use, against
+    // their own sketch, a vector of zeros, and the other sketcher's sketch: always exactly (equal positions) / m
+    if m <= 4096 {
+        let count = |x: &Vec<u64>, y: &Vec<u64>| x.iter().zip(y.iter()).filter(|(p, q)| p == q).count() as f64 / m as f64;
+        let countf = |x: &Vec<f64>, y: &Vec<f64>| x.iter().zip(y.iter()).filter(|(p, q)| p == q).count() as f64 / m as f64;
+        for state in 0..3u8 {
+            let mut s2 = SuperMinHash2::<u64, u64, FnvHasher>::new(m, Default::default());
+            let mut s1 = SuperMinHash::<f64, u64, FnvHasher>::new(m, Default::default());
+            if state >= 1 {
+                s2.sketch_slice(&items_a).unwrap();
+                s1.sketch_slice(&items_a).unwrap();
+            }
+            if state == 2 {
+                s2.reinit();
+                s1.reinit();
+            }
+            let name = ["a new sketcher", "a sketcher in use", "a reinitialised sketcher"][state as usize];
+            let own2 = s2.get_hsketch().clone();
+            let mut used2 = SuperMinHash2::<u64, u64, FnvHasher>::new(m, Default::default());
+            used2.sketch_slice(&items_b).unwrap();
+            for (what, other) in [("its own sketch", own2.clone()), ("a vector of zeros", vec![0u64; m]), ("the sketch of another set", used2.get_hsketch().clone())] {
+                let e = count(&own2, &other);
+                let got = call(|| s2.get_jaccard_index_estimate(&other).ok());
+                ensure!(got == Res::Val(e), "SuperMinHash2::get_jaccard_index_estimate on {} against {}: returned {:?}, expected exactly {:e} (= equal positions / length, length {})", name, what, got, e, m);
+            }
+            let own1 = s1.get_hsketch().clone();
+            let mut used1 = SuperMinHash::<f64, u64, FnvHasher>::new(m, Default::default());
+            used1.sketch_slice(&items_b).unwrap();
+            for (what, other) in [("its own sketch", own1.clone()), ("a vector of zeros", vec![0f64; m]), ("the sketch of another set", used1.get_hsketch().clone())] {
+                let e = countf(&own1, &other);
+                let got = call(|| s1.get_jaccard_index_estimate(&other).ok());
+                ensure!(got == Res::Val(e), "SuperMinHash::get_jaccard_index_estimate on {} against {}: returned {:?}, expected exactly {:e} (= equal positions / length, length {})", name, what, got, e, m);
+            }
+        }
+    }
     Ok(())
 }
 
@@ -448,7 +483,7 @@ fn mle_batch(ctx: &Ctx, cases: &[MleCase]) {
 pub fn run(ctx: &Ctx) {
     ctx.set_rule("(a) counting estimators: proptest generates (element type u16/u32/u64/f32/f64/String, a vector of 1..300 elements, a set of positions at which the second vector differs, optionally a different length); every estimator applicable to the type \
         (jaccard::compute_probminhash_jaccard, jaccard::get_jaccard_index_estimate, superminhasher::{compute_superminhash_jaccard,get_jaccard_index_estimate}, superminhasher2::{compute_superminhash_jaccard,get_jaccard_index_estimate}, \
-        and the two get_jaccard_index_estimate methods on real sketches) must return exactly equal/len computed in its own return type, be symmetric, give 1 on identical inputs and refuse (Err or panic) different lengths. Non-trivial = equal lengths with 0 < equal positions < len. \
+        and the two get_jaccard_index_estimate methods on real sketches, and on new / in-use / reinitialised sketchers against their own sketch, a vector of zeros and another sketch) must return exactly equal/len computed in its own return type, be symmetric, give 1 on identical inputs and refuse (Err or panic) different lengths. Non-trivial = equal lengths with 0 < equal positions < len. \
         (b) MLE: proptest-generated (register type, m, b in {1.001,1.01,1.2,2}, documented a and q, three cardinalities from the strata 0 / 1 / small / log-uniform up to the tier maximum) pairs of sketches; get_mle runs in a child process and must return a finite value in [0,1]. Non-trivial = both a difference and an intersection.");
     ctx.assume("float elements are finite (NaN != NaN would make 'identical sketches' ill-defined)");
     super::run_fixed_tier(ctx, replay);
